@@ -154,6 +154,23 @@ def diff (store : Assoc Bytes (List Entry)) (depth : Nat) (l r : List Entry) : O
   let acc := mergeLevel [] .none (l.length + r.length + 1) l r ⟨[], [], 0⟩
   runLayers store depth acc.queue acc.recs acc.cid
 
+/-- `tree::State` as far as results can depend on it: the work queue and `change_id` (the two
+buffers only hold bytes that are overwritten before use) -/
+structure DState where
+  trees : List QItem
+  cid : Nat
+  deriving Repr
+
+/-- `State::clear()` -/
+def DState.clear (_ : DState) : DState := ⟨[], 0⟩
+
+/-- `gix_diff::tree()` on a RE-USED state: `state.clear()` first, then the walk starts from what
+is in the state. (`diff` is the same on a fresh state.) -/
+def diffWith (store : Assoc Bytes (List Entry)) (depth : Nat) (st : DState) (l r : List Entry) : Outcome :=
+  let st' := st.clear
+  let acc := mergeLevel [] .none (l.length + r.length + 1) l r ⟨[], st'.trees, st'.cid⟩
+  runLayers store depth acc.queue acc.recs acc.cid
+
 /-! ### driver -/
 
 def relStr : Rel → String
@@ -178,7 +195,47 @@ def takeTrees : Nat → List String → Option (Assoc Bytes (List Entry) × List
     some ((id, es) :: ts, rest)
   | _, _ => none
 
+/-- one step of a sequence of diffs on one state: `n` plain, `c<j>` the delegate cancels at its
+`j`-th change (0-based), `h<id>` tree `id` is missing from the object database for this diff -/
+def stepObs (store : Assoc Bytes (List Entry)) (st : DState) (a b : Bytes) (flag : String) : Option (String × DState) := do
+  let hidden : Option Bytes ← (if flag.startsWith "h" then (bytesOfHex (flag.drop 1).toString).map some else some none)
+  let store' := match hidden with
+    | some h => store.filter (fun kv => kv.1 != h)
+    | none => store
+  match aget a store', aget b store' with
+  | some ta, some tb =>
+    -- what an aborted diff leaves behind in the state: (an over-approximation of) its queue
+    let left := mergeLevel [] .none (ta.length + tb.length + 1) ta tb ⟨[], [], 0⟩
+    let st2 : DState := ⟨left.queue, left.cid⟩
+    let show_ (recs : List Change) : String :=
+      if recs.isEmpty then "none" else String.intercalate "," (recs.map changeStr)
+    match diffWith store' (store.length + 1) st ta tb with
+    | .ok recs =>
+      if flag.startsWith "c" then do
+        let j ← (flag.drop 1).toString.toNat?
+        if j < recs.length then some (s!"cancel:{show_ (recs.take (j + 1))}", st2)
+        else some (show_ recs, ⟨[], 0⟩)
+      else some (show_ recs, ⟨[], 0⟩)
+    | .errFind => some ("err:find", st2)
+    | .fuel => some ("fuel", st2)
+  | _, _ => some ("err:root", st)
+
+def runSteps (store : Assoc Bytes (List Entry)) : Nat → DState → List String → List String → Option (List String)
+  | 0, _, toks, acc => if toks.isEmpty then some acc else none
+  | _ + 1, _, [], acc => some acc
+  | fuel + 1, st, a :: b :: flag :: rest, acc => do
+    let a ← bytesOfHex a
+    let b ← bytesOfHex b
+    let (o, st') ← stepObs store st a b flag
+    runSteps store fuel st' rest (acc ++ [o])
+  | _, _, _, _ => none
+
 def handle? : List String → Option String
+  | "s" :: k :: rest => do
+    let k ← k.toNat?
+    let (store, rest) ← takeTrees k rest
+    let obs ← runSteps store (rest.length + 1) ⟨[], 0⟩ rest []
+    some (String.intercalate "|" obs)
   | "d" :: k :: rest => do
     let k ← k.toNat?
     let (store, rest) ← takeTrees k rest
